@@ -50,7 +50,7 @@ def project(events):
             add(dict(ev="scn", scn=e["scn"]), e)
         elif k in ("up", "down", "cut"):
             add(dict(ev=k, inc=e["inc"]), e)
-        elif k in ("info", "gate", "dsgate", "stall"):
+        elif k in ("info", "gate", "dsgate", "stall", "replay", "ugate"):
             add(dict(ev="info"), e)
         elif k == "lat":
             add(dict(ev="lat", max_us=min(e["max_us"], 2_000_000_000), over_bound=e["over_bound"], stuck=e["stuck"], calls=e["calls"]), e)
@@ -213,6 +213,42 @@ def c06_scenarios(ctx):
             scns.append(dict(id=sid, kind="switch", route="all", connbuf=cb, iobuf=iob, flush_ms=fl, lines=n, linelen=60,
                              rcvbuf=4096, close_after=0, switches=sw))
     return scns
+
+
+def c06_spool_scenarios(ctx, first_id):
+    """spooling enabled: outage (backlog in the disk spool), then the endpoint comes back and misbehaves while the spool
+    is being replayed.  Latency bound only (with spooling on, the accounting is C07's subject)."""
+    rng = random.Random(ctx.seed * 7919 + 606)
+    q = ctx.quick()
+    scns = []
+    sid = first_id - 1
+    # (connbuf, iobuf, flush_ms, reconn_ms)
+    sizes = [(10, 512, 5, 10), (1000, 65536, 20, 10)] if q else [(1, 64, 1, 10), (10, 512, 5, 10), (300, 4096, 50, 50), (1000, 65536, 20, 10),
+                                                                  (5000, 1_000_000, 100, 20)]
+    ll = 1000
+    for kind in ("spoolbh", "spoolstall", "spoolclose"):
+        for (cb, iob, fl, rc) in sizes:
+            sid += 1
+            # the backlog must exceed conn.In + io buffer + what the kernel takes for an endpoint that never reads
+            # (socket buffers of a fresh loopback connection; SPOOL_KERNEL_BYTES is a generous allowance, the driver
+            # reports `saturated` and the check refuses to conclude anything from a replay that did not saturate)
+            backlog = cb + (iob + SPOOL_KERNEL_BYTES) // ll + rng.choice([300, 500, 800])
+            cycles, burst, post = 3, rng.choice([10, 20, 40]), 400
+            scns.append(dict(id=sid, kind=kind, route="all", connbuf=cb, iobuf=iob, flush_ms=fl, reconn_ms=rc, linelen=ll,
+                             rcvbuf=rng.choice([2048, 8192]), close_after=0, switches=[],
+                             backlog=backlog, cycles=cycles, burst=burst, post=post,
+                             lines=backlog + 600 * burst + post + 10))
+    # deterministic variant: the connection writer is held (hook gate at hd.recv) while the spool is replayed
+    for (cb, iob, fl, rc) in ([(2, 4096, 50, 20), (1, 512, 5, 10)] if q else [(2, 4096, 50, 20), (1, 512, 5, 10), (0, 512, 5, 10), (7, 65536, 20, 50)]):
+        sid += 1
+        backlog = 40 + 3 * cb
+        scns.append(dict(id=sid, kind="spoolgate", route="all", connbuf=cb, iobuf=iob, flush_ms=fl, reconn_ms=rc, linelen=60,
+                         rcvbuf=4096, close_after=0, switches=[], backlog=backlog, cycles=5, burst=20, post=50,
+                         lines=backlog + 100 + 50 + 10))
+    return scns
+
+
+SPOOL_KERNEL_BYTES = 4_500_000
 
 
 # ----------------------------------------------------------------------------- C07 scenarios
